@@ -2,96 +2,21 @@ package main
 
 import (
 	"fmt"
-	"math/rand"
-	"os"
-	"strings"
 
-	"verif/harness/core"
+	"github.com/dolthub/vitess/go/vt/sqlparser"
 )
 
 func main() {
-	e := core.NewEng("d")
-	defer e.Close()
-	s := e.NewSess()
-	s.MustExec("CREATE TABLE t (id INT PRIMARY KEY, a TINYINT, b TINYINT, c TINYINT, KEY abc (a,b,c))")
-	s.MustExec("CREATE TABLE u (id INT PRIMARY KEY, a TINYINT, b TINYINT, c TINYINT)")
-	id := 0
-	vals := []string{"NULL", "0", "2", "4", "6", "8", "10", "12"}
-	for _, a := range vals {
-		for _, b := range vals {
-			for _, c := range []string{"NULL", "0", "4", "12"} {
-				id++
-				q := fmt.Sprintf("(%d,%s,%s,%s)", id, a, b, c)
-				s.MustExec("INSERT INTO t VALUES " + q)
-				s.MustExec("INSERT INTO u VALUES " + q)
+	for _, q := range []string{"SELECT a FROM t WHERE a = .1234567", "SELECT t.1234", "SELECT a FROM t LIMIT 5 -- zz", "select 1 --x", "SELECT x'AB', X'AB' , 'a' 'b', \"dq 'in'\"", "SELECT a.`b`.c, :=", "KILL QUERY 123", "select 12.5E-3, 1e5x"} {
+		tk := sqlparser.NewStringTokenizer(q)
+		fmt.Print(q, " => ")
+		for {
+			typ, val := tk.Scan()
+			if typ == 0 {
+				break
 			}
+			fmt.Printf("[%d %q] ", typ, val)
 		}
+		fmt.Println()
 	}
-	seed := int64(1)
-	if len(os.Args) > 1 {
-		fmt.Sscan(os.Args[1], &seed)
-	}
-	rnd := rand.New(rand.NewSource(seed))
-	cond := func(col string) string {
-		k := 2 * rnd.Intn(7)
-		k2 := k + 2*rnd.Intn(4)
-		switch rnd.Intn(9) {
-		case 0:
-			return col + " IS NULL"
-		case 1:
-			return col + " IS NOT NULL"
-		case 2, 3:
-			return fmt.Sprintf("%s = %d", col, k)
-		case 4:
-			return fmt.Sprintf("%s > %d", col, k)
-		case 5:
-			return fmt.Sprintf("%s <= %d", col, k)
-		case 6:
-			return fmt.Sprintf("%s BETWEEN %d AND %d", col, k, k2)
-		case 7:
-			return fmt.Sprintf("(%s > %d AND %s < %d)", col, k, col, k2+2)
-		}
-		return fmt.Sprintf("%s >= %d", col, k)
-	}
-	found := 0
-	for i := 0; i < 4000 && found < 3; i++ {
-		nd := 2 + rnd.Intn(5)
-		var ds []string
-		for j := 0; j < nd; j++ {
-			cs := []string{cond("a")}
-			if rnd.Intn(5) > 0 {
-				cs = append(cs, cond("b"))
-				if rnd.Intn(2) > 0 {
-					cs = append(cs, cond("c"))
-				}
-			}
-			ds = append(ds, "("+strings.Join(cs, " AND ")+")")
-		}
-		w := strings.Join(ds, " OR ")
-		rt := s.Exec("SELECT id FROM t WHERE " + w)
-		ru := s.Exec("SELECT id FROM u WHERE " + w)
-		if rt.Failed() || ru.Failed() {
-			fmt.Println("FAIL", rt.Err, rt.Panic != nil, "|", ru.Err, "\n  ", w)
-			for ch := true; ch; {
-				ch = false
-				for k := 0; k < len(ds) && len(ds) > 1; k++ {
-					c2 := append(append([]string(nil), ds[:k]...), ds[k+1:]...)
-					r2 := s.Exec("SELECT id FROM t WHERE " + strings.Join(c2, " OR "))
-					if r2.Err != nil && strings.Contains(r2.Err.Error(), "overlapping ranges") {
-						ds = c2
-						ch = true
-						k--
-					}
-				}
-			}
-			fmt.Println("MIN:", strings.Join(ds, " OR "))
-			found++
-			continue
-		}
-		if !core.SameStrings(core.SortedRows(rt.Rows), core.SortedRows(ru.Rows)) {
-			fmt.Println("DIFF", len(rt.Rows), len(ru.Rows), "\n  ", w, "\n", s.Plan("SELECT id FROM t WHERE "+w))
-			found++
-		}
-	}
-	fmt.Println("done")
 }
